@@ -265,6 +265,10 @@ class PDA:
             The new PDA which accepts by final state the language that \
             was accepted by empty stack
         """
+        if self._start_state is None or self._start_stack_symbol is None:
+            # No start configuration (PDA(), the empty intersection): no
+            # word is accepted in either mode
+            return PDA()
         new_start = get_next_free("#STARTTOFINAL#", State, self._states)
         new_end = get_next_free("#ENDTOFINAL#", State, self._states)
         new_stack_symbol = get_next_free("#BOTTOMTOFINAL#",
@@ -300,6 +304,10 @@ class PDA:
             The new PDA which accepts by empty stack the language that was \
             accepted by final state
         """
+        if self._start_state is None or self._start_stack_symbol is None:
+            # No start configuration (PDA(), the empty intersection): no
+            # word is accepted in either mode
+            return PDA()
         new_start = get_next_free("#STARTEMPTYS#", State, self._states)
         new_end = get_next_free("#ENDEMPTYS#", State, self._states)
         new_stack_symbol = get_next_free("#BOTTOMEMPTYS#",
@@ -338,6 +346,9 @@ class PDA:
         new_cfg : :class:`~pyformlang.cfg.CFG`
             The equivalent CFG
         """
+        if self._start_state is None or self._start_stack_symbol is None:
+            # No start configuration: no word is accepted
+            return cfg.CFG()
         self._cfg_variable_converter = \
             CFGVariableConverter(self._states, self._stack_alphabet)
         start = cfg.Variable("#StartCFG#")
@@ -479,7 +490,7 @@ class PDA:
         else:
             raise NotImplementedError
         start_state_other = other.start_states
-        if len(start_state_other) == 0:
+        if len(start_state_other) == 0 or self._start_state is None:
             return PDA()
         pda_state_converter = _PDAStateConverter(self._states, other.states)
         start_state_other = list(start_state_other)[0]
